@@ -5,3 +5,4 @@ pub mod c18;
 pub mod c16;
 pub mod c15;
 pub mod c14;
+pub mod c01;
